@@ -480,6 +480,24 @@ func runC20(c *Ctx) {
 				if fluent && !reflect.DeepEqual(y2, want) {
 					fail("fluent-set", "WithValidations(v) on a carrier differs from a carrier built with v")
 				}
+				if kind == "schema" {
+					// a schema that is a reference AND carries validations (legal, kept by the codec): the accessors
+					// work on the validations, whatever else the schema holds
+					rs := mkCarrier(kind, init, markers).(*spec.Schema)
+					rs.Ref = spec.MustCreateRef("#/definitions/other")
+					keepRef := deepCopyCarrier(rs)
+					if !reflect.DeepEqual(rs.Validations(), restrict(kind, init)) {
+						fail("get", fmt.Sprintf("schema with a $ref: Validations() = %v, want %v", svPlain(rs.Validations()), svPlain(restrict(kind, init))))
+					}
+					rs.SetValidations(rs.Validations())
+					if !reflect.DeepEqual(carrier(rs), keepRef) {
+						fail("set-get", "schema with a $ref: writing back the validation set that was read changed the object")
+					}
+					rs.SetValidations(other)
+					if !reflect.DeepEqual(rs.Validations(), restrict(kind, other)) || rs.Ref.String() != "#/definitions/other" {
+						fail("get-set", "schema with a $ref: a written validation set is not what is read back (or the $ref changed)")
+					}
+				}
 				if kind == "parameter" {
 					payload := &spec.Schema{}
 					payload.Title = "payload"
